@@ -239,6 +239,21 @@ def run_slice(job: dict) -> dict:
                 C["assoc_checked"] += 1
                 if not (l == r):
                     viol("not_associative", a=fmt(a), b=fmt(b), c=fmt(cc), left=repr(l), right=repr(r))
+    # ---- TieredTime itself: the six comparison operators agree with the lexicographic order of the tiers ----
+    if w == 0:
+        for n in range(1, maxlen + 1):
+            pts = list(itertools.product(range(maxval + 1), repeat=n))
+            for x in pts:
+                for y in pts:
+                    X, Y = TT(*x), TT(*y)
+                    C["time_pairs_compared"] += 1
+                    got = (X < Y, X <= Y, X == Y, X != Y, X > Y, X >= Y)
+                    exp = (x < y, x <= y, x == y, x != y, x > y, x >= y)
+                    if got != exp:
+                        viol("tiered_time_order", x=list(x), y=list(y), got=list(got), expected=list(exp))
+                    if (X == Y) != (hash(X) == hash(Y)) and X == Y:
+                        viol("tiered_time_hash", x=list(x), y=list(y))
+            res["evaluations"] += len(pts) ** 2
     # ---- compatibility of < with addition on the left and right -------------------
     res["hashes"] = list(res["hashes"])
     res["counters"] = dict(C)
